@@ -346,7 +346,8 @@ func (env *SpecEnv) binary(x *ast.BinaryExpr) Value {
 			sb = Sc{sb.T, types.Typ[types.Uint64]}
 		}
 		if sa.Ty == untypedInt {
-			sa = Sc{sa.T, types.Typ[types.Int64]}
+			r := shiftOp(x.Op, Sc{sa.T, types.Typ[types.Int64]}, sb)
+			return Sc{r, untypedInt}
 		}
 		return Sc{shiftOp(x.Op, sa, sb), sa.Ty}
 	}
